@@ -428,6 +428,9 @@ func propC19(c *Ctx) string {
 	c19Lock(c)
 	c19ErrClose(c)
 	c19WSClose(c)
+	// a packet stays whole on the wire only if the encoder ships exactly the slice it encoded and keeps the
+	// pooled buffer until the write returned
+	c03Ship(c)
 	c.NotDecide("that no call blocks or panics after close / error / expired timeout (carrier, mercury.Writer and gorilla behaviour)", "that concurrent packets arrive whole (follows from LOCK only given a correct packet.Stream: C03/SHIP)", "flush-delay timing")
 	c.Assume("lock keys are instance-insensitive (one BaseConn)", "net.Conn / websocket.Conn Close unblock pending reads")
 	return c19Explanation
